@@ -21,6 +21,13 @@ class Mon(E.Monitor):
 
     def on_node(self, eng, acc):
         node = eng.snapshot()
+        try:
+            self._on_node(eng, acc, node)
+        except Exception as e:  # noqa  (non-terminating / crashing pass: C04 / C16 report it)
+            acc.caps.append(f"differential run on {eng.spec.get('tag')} stopped: {type(e).__name__}")
+            eng.restore(node)
+
+    def _on_node(self, eng, acc, node):
         t = node[0]
         inbox = eng.box_solutions(self.sols)
         st_bc = eng.propagate(S.CONS["bc"])
@@ -120,7 +127,7 @@ def unit(u):
 
 def run(tier, seed):
     t0 = time.time()
-    acc, nspecs = SC.run_units(unit, tier, seed, ("F1", "F2", "F3", "F4", "F5"), chunk=20, filt=lambda s: eligible(s, tier))
+    acc, nspecs = SC.run_units(unit, tier, seed, ("F1", "F2", "F3", "F4", "F5", "F6"), chunk=20, filt=lambda s: eligible(s, tier))
     cov = {
         "states": acc.c["states"],
         "transitions": acc.c["transitions"],
